@@ -154,6 +154,21 @@ def c07_cases(seed, tier):
         cases.append({"id": "c07-w%d-drv" % w, "kind": "run", "src": "\n".join(lines) + "\n", "sigs": sigs, "layout": [1], "table": table,
                       "echo": 0, "wdefault": 0, "faults": [], "max": 1000, "seed": seed & 0xFFFFFFFF,
                       "c07": {"w": w, "vals": vals[:24], "typ": "I", "drv": True}})
+    # (a) an output of ANOTHER width listed BEFORE the input (per-signal masks must be looked up by signal, not by position),
+    # (b) a driver that reports nothing at all (every output is X; the expected values are reduced all the same) and the static
+    #     iterator, (c) the very first row already carries out-of-range values
+    for w in (1, 2, 3, 7, 8, 16, 31, 32, 33, 63, 64):
+        for w2 in (1, 5, 64):
+            if w2 == w:
+                continue
+            sigs = [{"name": "Q", "typ": "O", "bits": w2, "default": "-"}, {"name": "A", "typ": "I", "bits": w, "default": "0"},
+                    {"name": "R", "typ": "O", "bits": w, "default": "-"}]
+            first = [-1, 2 ** 63 - 1, -(2 ** 63)] + vals[:12]
+            lines = ["A R"] + ["%s %s" % (lit64(v), lit64(v)) for v in first]
+            for variant, (kind, layout) in enumerate([("run", [0, 2]), ("run", []), ("static", [])]):
+                cases.append({"id": "c07-ord-%d-%d-%d" % (w, w2, variant), "kind": kind, "src": "\n".join(lines) + "\n", "sigs": [dict(s_) for s_ in sigs],
+                              "layout": layout, "table": [["1"] * len(layout)], "echo": 0, "wdefault": 0, "faults": [], "max": 1000, "seed": 1,
+                              "c07ord": {"w": w, "vals": first}})
     # one header column bound to TWO signals of different widths: an input literally named B_out (width w2) and
     # the expected side of a bidirectional B (width w): each value is reduced to the width of the signal it is bound to
     for w in (1, 3, 8, 16, 31, 33, 63, 64):
@@ -205,6 +220,38 @@ def c07_oracle(case, trace):
         yield "X on the expected path did not pass through unchanged"
 
 
+def c07_ord_oracle(case, trace):
+    info = case.get("c07ord")
+    if not info:
+        return
+    w = info["w"]
+    rows = [static_view(r) for t, r in trace if t == "SROW"] if case["kind"] == "static" else None
+    if rows is None:
+        rr = rows_of(trace)
+        if len(rr) != len(info["vals"]):
+            yield "expected %d rows, got %d" % (len(info["vals"]), len(rr))
+            return
+        for v, (line, ins, outs, _) in zip(info["vals"], rr):
+            want = to_i64(v % (1 << w))
+            for nm_, val, _ in ins:
+                if nm_ == "A" and val != str(want):
+                    yield "width %d: input A for program value %d is %s, expected %d" % (w, v, val, want)
+            for nm_, _, exp, _, _ in outs:
+                if nm_ == "R" and exp != str(want):
+                    yield "width %d: expected value of R for program value %d is %s, expected %d" % (w, v, exp, want)
+    else:
+        if len(rows) != len(info["vals"]):
+            yield "static: expected %d rows, got %d" % (len(info["vals"]), len(rows))
+            return
+        for v, (line, ins, outs) in zip(info["vals"], rows):
+            want = to_i64(v % (1 << w))
+            if ("A=%d" % want) not in ins.replace("*", " ").split():
+                yield "static, width %d: input A for program value %d is [%s], expected %d" % (w, v, ins, want)
+            for nm_, exp in outs:
+                if nm_ == "R" and exp != str(want):
+                    yield "static, width %d: expected value of R for program value %d is %s, expected %d" % (w, v, exp, want)
+
+
 def c07_dual_oracle(case, trace):
     info = case.get("c07dual")
     if not info:
@@ -230,7 +277,7 @@ PROPS["C07"] = {
     "cases": c07_cases,
     "tags": RUN_TAGS,
     "nontrivial": nontrivial_rows(2),
-    "oracles": [c07_oracle, c07_dual_oracle, no_panic_oracle],
+    "oracles": [c07_oracle, c07_dual_oracle, c07_ord_oracle, no_panic_oracle],
     "release": True,
     "rule": "exhaustive over widths 1..64 x {input, bidirectional} signal; per width one row per boundary value (27 fixed 64-bit boundary "
             "values + seeded random i64) on the input path, the expected path and a 64-bit virtual signal, plus a Z/X row; "
@@ -272,7 +319,7 @@ def add_faults(casefn, kinds, frac=0.6, cont=0.0):
                     c["cont"] = 1
                 # the FIRST answer defines the layout (any subset and permutation of the output-capable signals):
                 # at call 0 only faults that keep it such a layout are meaningful as "the first answer"
-                c["faults"] = [((1 if (k == 0 and what.split()[0] in ("add", "dup", "subst")) else k), what) for k, what in c["faults"]]
+                c["faults"] = [((1 if (k == 0 and what.split()[0] in ("add", "dup", "subst", "widen")) else k), what) for k, what in c["faults"]]
         return cases
     return f
 
@@ -917,7 +964,7 @@ PROPS["C13"] = {
         {"pC": 0.15, "pX": 0.1, "maxdepth": 2, "reads": 0.3, "declare": 0.2, "full_layout": False},
         {"pC": 0.1, "maxdepth": 3, "reads": 0.2, "echo": 1.0},
         {"pC": 0.1, "maxdepth": 2, "reads": 0.2, "n_bidir": 1, "out_twin": 0.8, "full_layout": True},
-    ]), ["err", "drop", "add", "dup", "swap", "subst"], 0.8, cont=0.4),
+    ]), ["err", "drop", "add", "dup", "swap", "subst", "widen"], 0.8, cont=0.4),
     "tags": ("NEW", "CALL", "ROW", "ITEM", "END"),
     "nontrivial": lambda c, t: any(x == "ITEM" for x, _ in t) or any(x == "NEW" and r.startswith("err") for x, r in t),
     "oracles": [attribution_oracle, protocol_oracle, no_panic_oracle],
@@ -1443,6 +1490,9 @@ def c15_cases(seed, tier):
         other = dict(base, id="c15-%d-run2" % i, kind="run", group=run["id"])
         other["table"] = [[str(rng.randrange(0, 250)) if v not in ("Z", "X") else v for v in row] for row in base["table"]] + [[str(rng.randrange(0, 9)) for _ in base["layout"]]]
         other["echo"] = 1 - base["echo"]
+        if i % 4 == 0 and base["layout"]:
+            # a driver whose own description of a pin differs from the test's (one more bit) - from its first answer on, or once
+            other["faults"] = [(rng.choice([0, 0, 1, 2]), "widen %d" % rng.randrange(0, len(base["layout"])))]
         cases.append(other)
         cases.append(dict(base, id="c15-%d-static" % i, kind="static", group=run["id"]))
         k = rng.randrange(2, 5)
@@ -2092,3 +2142,51 @@ def _c17_static_decl(seed, tier):
     return out
 PROPS["C17"]["cases"] = lambda seed, tier: _c17_b3(seed, tier) + _c17_static_decl(seed, tier)
 PROPS["C17"]["rule"] += "; plus static and dynamic runs of tests whose declared signal draws"
+
+
+PROPS["C07"]["tags"] = tuple(PROPS["C07"]["tags"]) + ("STATIC", "SROW")
+
+
+# ------------------------------------------------------------------ names that are variables only inside a scope that has ended
+def scope_leak_cases(prefix):
+    """after `repeat(k) row` the name n, after `end loop` the counter (and everything let-bound in the loop) are no variables
+    any more: a later use of the name is a read of the OUTPUT of that name (recorded as such, so a driver that does not
+    supply it is refused at construction, and the test is not static) or, without such an output, does not bind"""
+    cases = []
+    shapes = [
+        ("A n Q", ["repeat(2) 1 X X", "(n) X X"], ["n"]),
+        ("A n Q", ["repeat(2) (n) X X", "let y = n + 1;", "(y) X X"], ["n"]),
+        ("A i Q", ["loop(i,2)", "(i) X X", "end loop", "(i+1) X X"], ["i"]),
+        ("A i Q", ["loop(i,2)", "let t = i;", "(t) X X", "end loop", "loop(j,i)", "(j) X X", "end loop"], ["i"]),
+        ("A t Q", ["loop(i,2)", "let t = i + 5;", "(t) X X", "end loop", "(t) X X"], ["t"]),
+        ("A t Q", ["loop(i,1)", "loop(j,1)", "let t = 3;", "end loop", "(t) X X", "end loop", "(t) X X"], ["t"]),
+        ("A w Q", ["let w = 0;", "while(w < 2)", "let w = w + 1;", "(w) X X", "end while", "(w) X X"], []),
+        ("A n Q", ["loop(n,2)", "repeat(2) (n) X X", "(n) X X", "end loop", "(n) X X"], ["n"]),
+    ]
+    for i, (hdr, body, outs) in enumerate(shapes):
+        oname = hdr.split()[1]
+        sig_sets = [[_sig("A", "I", 8), _sig(oname, "O", 8), _sig("Q", "O", 8)],
+                    [_sig("A", "I", 8), _sig("Q", "O", 8)],                     # no such output: does not bind (unless the name is never read)
+                    [_sig("A", "I", 8), _sig(oname, "I", 8), _sig("Q", "O", 8)]]  # the name is an INPUT: cannot be read
+        for j, sigs in enumerate(sig_sets):
+            hdr_j = hdr if j != 1 else hdr.replace(" " + oname + " ", " ")
+            body_j = body if j != 1 else [l.replace(" X X", " X") if l.endswith(" X X") else l for l in body]
+            out_idx = [k for k, s_ in enumerate(sigs) if s_["typ"] == "O"]
+            for lay in ([out_idx, [k for k in out_idx if sigs[k]["name"] == "Q"]] if j == 0 else [out_idx]):
+                for kind in ("run", "static"):
+                    cases.append({"id": "%s-leak-%d-%d-%d-%s" % (prefix, i, j, len(lay), kind), "kind": kind, "src": hdr_j + "\n" + "\n".join(body_j) + "\n",
+                                  "sigs": [dict(s_) for s_ in sigs], "layout": lay, "table": [[str(3 + k) for k in range(len(lay))], [str(5 + k) for k in range(len(lay))]],
+                                  "echo": 0, "wdefault": 0, "faults": [], "max": 40, "seed": 1})
+    return cases
+
+
+for _p in ("C04", "C11", "C15", "C01"):
+    _extend(_p, (lambda pref: (lambda seed, tier: scope_leak_cases(pref)))(_p.lower()),
+            "plus fixed shapes for names that are variables only inside a scope that has ended (repeat's n, loop counters, lets of a loop body) and are outputs, inputs or nothing outside it; with drivers that do and do not supply them; dynamic and static")
+if "STATIC" not in PROPS["C11"]["tags"]:
+    PROPS["C11"]["tags"] = tuple(PROPS["C11"]["tags"]) + ("STATIC", "SROW")
+# C04: answers of the wrong length / order in the middle of a run, caller goes on, later expressions read outputs
+_c04b = PROPS["C04"]["cases"]
+PROPS["C04"]["cases"] = lambda seed, tier: _c04b(seed, tier) + add_faults(run_family("c04f", 150 if tier == "quick" else 6000, 0, [
+    {"reads": 0.95, "echo": 1.0, "maxdepth": 2, "wrow": 0.5, "wlet": 0.3, "full_layout": True, "pZXread": 0.0}]), ["drop", "add", "dup", "swap", "err"], 1.0, cont=1.0)(seed, "quick")
+PROPS["C04"]["rule"] += "; plus a family of output-reading programs whose driver deviates (wrong length / order / error) in the middle, with a caller that goes on"
